@@ -10,6 +10,7 @@ import (
 	"net/url"
 	"sort"
 	"strings"
+	"sync"
 	"testing"
 	"time"
 
@@ -344,6 +345,51 @@ func runOrder(c *Case, order []int) ([]obs, error) {
 				return nil, fmt.Errorf("HARNESS: redial: %v", err)
 			}
 		}
+	}
+	// the same requests again, from several connections at once: the choice of
+	// site must not depend on what other requests are being routed meanwhile
+	var wg sync.WaitGroup
+	errs := make(chan error, 8)
+	for g := 0; g < 6; g++ {
+		wg.Add(1)
+		go func(g int) {
+			defer wg.Done()
+			cc, err := srv.Dial(addr)
+			if err != nil {
+				return
+			}
+			defer func() { cc.Close() }()
+			for round := 0; round < 2; round++ {
+				for k := range c.Reqs {
+					i := (k + g*3) % len(c.Reqs)
+					r := c.Reqs[i]
+					resp, err := cc.Do("GET", srv.Request("GET", r.Path, r.Host, nil, nil))
+					if err != nil {
+						return // connection-level trouble is not what this phase is about
+					}
+					got := obs{Status: resp.Status, Site: resp.Header.Get("X-Site"), Seen: resp.Header.Get("X-Seen"), Body: string(resp.Body)}
+					if got != out[i] {
+						select {
+						case errs <- fmt.Errorf("request %+v: answered %+v while other requests were being routed, %+v on its own", r, got, out[i]):
+						default:
+						}
+						return
+					}
+					if resp.Close {
+						cc.Close()
+						if cc, err = srv.Dial(addr); err != nil {
+							return
+						}
+					}
+				}
+			}
+		}(g)
+	}
+	wg.Wait()
+	select {
+	case err := <-errs:
+		return nil, err
+	default:
 	}
 	return out, nil
 }
